@@ -362,7 +362,7 @@ func init() {
 		ID: "C11", Level: "exploration", Race: true, Isolation: 40,
 		QuickRuns: 2500, ThoroughRuns: 80000,
 		Gen: c11GenMode("c11"), Exec: c11Exec, Shrink: c11Shrink,
-		Rule: "one case = 2-4 goroutines, each building its own VM (own flags, error language, seeded or unseeded) and running 2-5 generated programs, interleaved by the seeded scheduler (uniform / PCT-like / run-to-conflict) at every VM instruction, every die, and around the package-level language write/read, in a -race build whose scheduler hand-off is invisible to the race detector. Oracles: zero race reports with a dicescript frame; every seeded task's outcomes (value, error text, detail, matched/rest, op count, generator state, variables) equal its isolated run; error texts in the task's own language. distinct = distinct (program texts, context-switch sequence); non-trivial = at least 2 context switches",
+		Rule: "one case = 2-4 goroutines, each building its own VM (own flags, error language, seeded or unseeded, a third of them with a parse budget of 3-600 expressions so that parses are abandoned at arbitrary depth) and running 2-5 generated programs, interleaved by the seeded scheduler (uniform / PCT-like / run-to-conflict) at every VM instruction, every die, and around the package-level language write/read, in a -race build whose scheduler hand-off is invisible to the race detector. Oracles: zero race reports with a dicescript frame; every seeded task's outcomes (value, error text, detail, matched/rest, op count, generator state, variables) equal its isolated run; error texts in the task's own language. distinct = distinct (program texts, context-switch sequence); non-trivial = at least 2 context switches",
 		Real: []string{"dicescript package under -race with tag verif; goroutines are real"},
 		Stub: []string{"goroutine scheduling (decided by the simulator at yield hooks)", "global generators reseeded by the simulator"},
 		Assumptions: []string{"preemption only at yield points: VM instruction boundaries, Roll calls, after the language write in Parse, before the language read in the error formatter", "race detection depends on ThreadSanitizer's shadow history; a missed race is a miss, never a false alarm"},
@@ -371,7 +371,7 @@ func init() {
 		ID: "C19", Level: "exploration", Race: true, Isolation: 40,
 		QuickRuns: 2500, ThoroughRuns: 80000,
 		Gen: c11GenMode("c19"), Exec: c11Exec, Shrink: c11Shrink,
-		Rule: "one case = 2-4 goroutines with error languages 0/1/2 evaluating mostly rejected inputs under the seeded scheduler, with preemption points between the package-level language write (Parse) and its read (error formatter). Oracles: each syntax-error text is purely in its VM's language and equals the text the same input gives alone; line/column/quoted line/caret arithmetic is monitored on the rejected inputs that occur. distinct = distinct (input texts, context-switch sequence); non-trivial = at least 2 context switches",
+		Rule: "one case = 2-4 goroutines with error languages 0/1/2 (a third of them with a parse budget of 3-600 expressions: parses abandoned at arbitrary depth) evaluating mostly rejected inputs under the seeded scheduler, with preemption points between the package-level language write (Parse) and its read (error formatter). Oracles: each syntax-error text is purely in its VM's language and equals the text the same input gives alone; line/column/quoted line/caret arithmetic is monitored on the rejected inputs that occur. distinct = distinct (input texts, context-switch sequence); non-trivial = at least 2 context switches",
 		Real: []string{"dicescript parser and error formatter under -race with tag verif"},
 		Stub: []string{"goroutine scheduling (decided by the simulator at yield hooks)"},
 		Assumptions: []string{"line/column/caret arithmetic is only monitored on generated rejected inputs, not claimed as covered for all inputs"},
